@@ -232,17 +232,22 @@ func (conn *Conn) send(call *Call) {
 		}
 		conn.pending[seq] = call
 	}
+	// Once the call is registered the reader may complete it at any time and a
+	// blocking caller may recycle it: take what the write needs while still
+	// holding the lock.
+	u := *call.upgrade
+	serviceMethod, args := call.ServiceMethod, call.Args
 	conn.mutex.Unlock()
 	ctx := Context{}
 	ctx.Seq = seq
-	ctx.upgrade = call.upgrade
+	ctx.upgrade = &u
 	var upgradeBuffer []byte
-	if !call.upgrade.IsZero() {
+	if !u.IsZero() {
 		upgradeBuffer = getUpgradeBuffer()
-		ctx.Upgrade, _ = call.upgrade.Marshal(upgradeBuffer)
+		ctx.Upgrade, _ = u.Marshal(upgradeBuffer)
 	}
-	ctx.ServiceMethod = call.ServiceMethod
-	err := conn.codec.WriteRequest(&ctx, call.Args)
+	ctx.ServiceMethod = serviceMethod
+	err := conn.codec.WriteRequest(&ctx, args)
 	if err != nil {
 		// The call may already have been completed by the reader (response, or
 		// the sweep on connection loss); complete it only if it is still registered.
